@@ -274,6 +274,9 @@ def fixed_rt_cases(tier):
         out.append(vfmt([2, [f], "%s:mode=77" % f, b"\x00\x01", [], [], 1, 0]))
         out.append(vfmt([2, [f], "%s:name=café.bin" % f, b"\x00\x01", [], [], 0, 0]))
     out.append(vfmt([2, ["zstd"], "zstd:long=28", [3, 5, 1000], [], [], 0, 0]))
+    # uuencode output whose length is 2 (mod read block size): the final "end" line is cut after "en"
+    out.append(vfmt([2, ["uuencode"], "", [1, 5, 22282], [], [10240], 0, 0]))    # 30722 = 3 * 10240 + 2
+    out.append(vfmt([2, ["uuencode"], "", [1, 5, 2959], [], [4096], 1, 0]))      # 4098 = 4096 + 2
     return out
 
 def fixed_concat_cases(tier):
@@ -588,8 +591,104 @@ def dec_oracle(case_line, impl_line):
                 (len(rec), len(want), c[2]))
     return None
 
+def raise_stack_limit():
+    """the extracted model recurses over byte lists (non tail-recursive list functions)"""
+    try:
+        soft, hard = resource.getrlimit(resource.RLIMIT_STACK)
+        resource.setrlimit(resource.RLIMIT_STACK, (hard, hard))
+    except Exception:
+        pass
+
+def model_lines(runner, cases, name):
+    path = vlib.write_cases(cases, name + ".cases")
+    rc, lines, err = vlib.run_exe(runner, path, timeout=900)
+    if rc != 0 or len(lines) != len(cases):
+        raise vlib.ModelError("model runner failed on %s (rc=%s, %d/%d lines): %s" % (name, rc, len(lines), len(cases), err[-300:]))
+    return lines
+
+def rt_nontrivial(case_line):
+    """non-trivial = at least one byte of payload really goes through a codec and is read back in
+    more than one read block or written in more than one write call"""
+    c = vparse(case_line)
+    if c[0] == 2:
+        return data_len(c[3]) > 0 and (len(c[4]) > 0 or len(c[5]) > 0)
+    return data_len(c[4]) > 0 and data_len(c[5]) > 0
+
 def run(rep):
-    raise NotImplementedError
+    raise_stack_limit()
+    pr = vlib.proof_part(rep, "C03", translators=["gen_codec"])
+    runner = vlib.build_runner("codec")
+    exe = vlib.compile_harness("codec", "asan")
+    quick = rep.tier == "quick"
+    corpus = vlib.load_corpus("C03")
+    # ---- corr-1: writers
+    r = vlib.rng(rep.seed, "C03/enc")
+    n_enc = 250 if quick else 4000
+    enc_cases = [c for c in corpus if c.startswith("(0 ")]
+    enc_cases += [gen_enc(r, rep.tier) for _ in range(n_enc)] + [gen_enc(r, rep.tier, big=True) for _ in range(12 if quick else 120)]
+    st1 = vlib.correspond(rep, "codec-enc", runner, exe, enc_cases, oracle=enc_oracle)
+    # ---- corr-2: uu read filter on the model writer's output (+ mutated lines)
+    r = vlib.rng(rep.seed, "C03/dec")
+    dec_cases = [c for c in corpus if c.startswith("(1 ")]
+    for c, m in zip(enc_cases, model_lines(runner, enc_cases, "codec-enc-model")):
+        dec_cases += gen_dec_from_model(r, c, m, rep.tier)
+    st2 = vlib.correspond(rep, "codec-dec", runner, exe, dec_cases, oracle=dec_oracle)
+    # ---- spec level: every filter, stacks, options, chunkings, concatenation (real code only)
+    r = vlib.rng(rep.seed, "C03/spec")
+    spec_cases = [c for c in corpus if c.startswith("(2 ") or c.startswith("(3 ")]
+    spec_cases += fixed_rt_cases(rep.tier) + fixed_concat_cases(rep.tier)
+    n_rt = 260 if quick else 6000
+    spec_cases += [gen_rt(r, rep.tier) for _ in range(n_rt)]
+    spec_cases += [gen_concat(r, rep.tier) for _ in range(n_rt // 3)]
+    st3 = run_impl_only(rep, "codec-spec", exe, spec_cases, rt_oracle, timeout=1500 if quick else 20000)
+    allc = enc_cases + dec_cases + spec_cases
+    rep.coverage.update(
+        evaluations=len(allc),
+        distinct_nontrivial=len(set(c for c in enc_cases if len(vparse(c)[5]) > 1)) +
+                            len(set(c for c in dec_cases if vparse(c)[3])) +
+                            len(set(c for c in spec_cases if rt_nontrivial(c))),
+        rule="corr-1: random streams (0..200000 bytes, line length +-1, > bs) x write partitions (1 byte, line +-1, random, "
+             "with empty calls) x bytes_per_block {0,1,..,200000} x mode/name options, both encoders; non-trivial = more than "
+             "one write call.  corr-2: the model writer's output read back by the real uu filter with read blocks "
+             "{1,2/3,61..63,512..65536,random}, plus mutated streams (CRLF, junk before/after, bad length / data characters, "
+             "cut lines, two members); non-trivial = unmutated stream with a readable header and a non-empty payload.  "
+             "spec: filters {gzip,bzip2,xz,lzma,lzip,zstd,lz4,compress,uuencode,b64encode}, stacks of 1..3, valid option "
+             "strings, streams {empty, 1 byte, random, repetitive, mixed; line/block/buffer size +-1; up to 1 MiB quick, "
+             "16 MiB thorough}, write chunkings x read blockings x request sizes x reader with all / only the stack's "
+             "filters, two-member concatenation for gzip,bzip2,xz,lzip,zstd,lz4; payloads never begin with a compression "
+             "signature (first byte 0, and the harness probes the payload with all bidders); non-trivial = non-empty "
+             "payload written or read in several pieces (both members non-empty for concatenation)",
+        samples=[enc_cases[0][:300], dec_cases[0][:300], spec_cases[-1][:300], spec_cases[len(spec_cases) // 2][:300]],
+        traces_validated_against_impl=st1["agree"] + st2["agree"],
+        correspondence=[st1, st2], spec=st3)
+    rep.assumptions += [
+        "the client write callback accepts every block whole (the model of archive_write_client_write assumes it)",
+        "uu decoder model is a whole-stream model: window (read block) dependent behaviour of uudecode_filter_read is not "
+        "modelled (list at uu_loop in coq/Codec/CodecDefs.v); mutated streams are therefore read in ONE block, and only "
+        "streams whose last line is terminated are generated (an unterminated last line makes the real filter call "
+        "memcpy(dst, NULL, 0), archive_read_support_filter_uu.c:502, which UBSan reports)",
+        "zlib, bzip2, liblzma, zstd, lz4 and the LZW compress code are not modelled: for them only the spec-level oracle "
+        "(real writer -> real reader) and the abstract drive-loop / member-concatenation theorems apply",
+        "readers forced with archive_read_append_filter are not part of the oracle (compress: NULL upstream dereference in "
+        "compress_bidder_init; uu: a first window holding only the header line is taken as end of data)",
+        "mode option strings longer than 21 octal digits are not generated (atol8 shifts a signed 64-bit value: UB)",
+    ]
+    vlib.proof_verdict(rep, "C03", pr)
 
 def replay(rep, path):
-    raise NotImplementedError
+    raise_stack_limit()
+    d = json.load(open(path))
+    rp = d["replay"]
+    case = rp.get("case")
+    exe = vlib.compile_harness("codec", "asan")
+    if case is None:
+        raise RuntimeError("replay file has no case")
+    if case.startswith("(0 ") or case.startswith("(1 "):
+        runner = vlib.build_runner("codec")
+        if case.startswith("(0 "):
+            vlib.correspond(rep, "codec-enc", runner, exe, [case], oracle=enc_oracle)
+        else:
+            vlib.correspond(rep, "codec-dec", runner, exe, [case], oracle=dec_oracle)
+    else:
+        run_impl_only(rep, "codec-spec", exe, [case], rt_oracle)
+    rep.coverage.update(evaluations=1, distinct_nontrivial=1, samples=[case[:400]])
